@@ -92,6 +92,8 @@ using Clock = std::chrono::steady_clock;
 using std::chrono::milliseconds;
 
 // ======================================================================================= interposition
+static int g_slow = 1;                       // C07_SLOW: multiplies every settle window (solo re-runs under CPU contention)
+static int W(int ms) { return ms * g_slow; }
 static thread_local int t_peer = 0;          // >0 while harness-owned (peer) code runs on this thread
 struct PeerScope { PeerScope() { ++t_peer; } ~PeerScope() { --t_peer; } };
 
@@ -727,13 +729,15 @@ struct PeerOut
   std::string raw;         // plaintext peers: bytes received
   std::string err;
 };
-static SSL_CTX *peerCtx(bool server, int ceil)
+static SSL_CTX *peerCtx(bool server, int ceil, bool anon = false)
 {
   SSL_CTX *c = SSL_CTX_new(server ? TLS_server_method() : TLS_client_method());
   SSL_CTX_set_security_level(c, 0);
-  SSL_CTX_set_cipher_list(c, "ALL:@SECLEVEL=0");
+  // ordinary peers never offer anonymous suites; the `anon` peer offers nothing else (no certificate, TLS <= 1.2)
+  SSL_CTX_set_cipher_list(c, anon ? "aNULL:@SECLEVEL=0" : "ALL:!aNULL:@SECLEVEL=0");
+  if (anon) SSL_CTX_set_dh_auto(c, 1);
   SSL_CTX_set_min_proto_version(c, TLS1_VERSION);
-  SSL_CTX_set_max_proto_version(c, ceil);
+  SSL_CTX_set_max_proto_version(c, (anon && ceil > TLS1_2_VERSION) ? TLS1_2_VERSION : ceil);
   return c;
 }
 static std::string sslErr()
@@ -773,7 +777,7 @@ static bool rawReadUntil(int fd, const char *needle, std::string &acc)
   return false;
 }
 
-enum class PeerKind { Tls, Plain, Garbage, BadHello, Dual, PlainRead };
+enum class PeerKind { Tls, Plain, Garbage, BadHello, Dual, PlainRead, Anon };
 static PeerKind peerKind(const std::string &s)
 {
   if (s == "tls") return PeerKind::Tls;
@@ -781,6 +785,7 @@ static PeerKind peerKind(const std::string &s)
   if (s == "garbage") return PeerKind::Garbage;
   if (s == "badhello") return PeerKind::BadHello;
   if (s == "plainread") return PeerKind::PlainRead;
+  if (s == "anon") return PeerKind::Anon;
   return PeerKind::Dual;
 }
 static std::string garbageBytes(bool framed)
@@ -849,7 +854,7 @@ struct ServerPeer
           std::string r = "HTTP/1.1 200 OK\r\nContent-Type: text/plain\r\nContent-Length: " + std::to_string(body.size()) + "\r\nConnection: close\r\n\r\n" + body;
           ::send(c, r.data(), r.size(), MSG_NOSIGNAL);
         }
-        setRecvTimeout(c, 200);
+        setRecvTimeout(c, W(200));
         while (::recv(c, b, sizeof b, 0) > 0) {}
         ::close(c);
         return;
@@ -860,7 +865,7 @@ struct ServerPeer
         if (rawReadUntil(c, "APP:", out.raw)) { out.gotApp = out.raw.find(MARK) != std::string::npos; std::string r = "PONG\n"; ::send(c, r.data(), r.size(), MSG_NOSIGNAL); }
         std::string rest;
         char b[256];
-        setRecvTimeout(c, 300);
+        setRecvTimeout(c, W(300));
         while (::recv(c, b, sizeof b, 0) > 0) {}
         ::close(c);
         return;
@@ -870,7 +875,7 @@ struct ServerPeer
     {
       std::string hello = k == PeerKind::Plain ? std::string("220 plaintext service ready\r\n") : garbageBytes(k == PeerKind::BadHello);
       ::send(c, hello.data(), hello.size(), MSG_NOSIGNAL);
-      setRecvTimeout(c, 600);
+      setRecvTimeout(c, W(600));
       char b[4096];
       for (;;)
       {
@@ -887,9 +892,9 @@ struct ServerPeer
       ::close(c);
       return;
     }
-    SSL_CTX *ctx = peerCtx(true, ceil);
+    SSL_CTX *ctx = peerCtx(true, ceil, k == PeerKind::Anon);
     const CertKey &ck = g_ck[cert == "mismatch" ? "decoy" : cert];
-    if (SSL_CTX_use_certificate(ctx, ck.x) != 1 || SSL_CTX_use_PrivateKey(ctx, ck.k) != 1) { out.err = "peer-cert-load:" + sslErr(); SSL_CTX_free(ctx); ::close(c); return; }
+    if (k != PeerKind::Anon && (SSL_CTX_use_certificate(ctx, ck.x) != 1 || SSL_CTX_use_PrivateKey(ctx, ck.k) != 1)) { out.err = "peer-cert-load:" + sslErr(); SSL_CTX_free(ctx); ::close(c); return; }
     SSL *ssl = SSL_new(ctx);
     SSL_set_fd(ssl, c);
     int rc = SSL_accept(ssl);
@@ -922,7 +927,7 @@ struct ServerPeer
         SSL_write(ssl, r.data(), (int)r.size());
         // give the other side a moment to read before close_notify
         char b[64];
-        setRecvTimeout(c, 300);
+        setRecvTimeout(c, W(300));
         SSL_read(ssl, b, sizeof b);
       }
       SSL_shutdown(ssl);
@@ -958,7 +963,7 @@ static void clientPeer(std::uint16_t port, PeerKind kind, const std::string &cce
     // PlainRead: a client that never handshakes and never speaks - it only reads what the server volunteers
     std::string first = kind == PeerKind::Plain ? app : kind == PeerKind::PlainRead ? std::string() : garbageBytes(kind == PeerKind::BadHello);
     if (!first.empty()) ::send(c, first.data(), first.size(), MSG_NOSIGNAL);
-    setRecvTimeout(c, kind == PeerKind::PlainRead ? 400 : 700);
+    setRecvTimeout(c, W(kind == PeerKind::PlainRead ? 400 : 700));
     char b[4096];
     for (;;)
     {
@@ -970,8 +975,8 @@ static void clientPeer(std::uint16_t port, PeerKind kind, const std::string &cce
     ::close(c);
     return;
   }
-  SSL_CTX *ctx = peerCtx(false, ceil);
-  if (ccert != "none")
+  SSL_CTX *ctx = peerCtx(false, ceil, kind == PeerKind::Anon);
+  if (ccert != "none" && kind != PeerKind::Anon)
   {
     const CertKey &ck = g_ck[ccert];
     if (SSL_CTX_use_certificate(ctx, ck.x) != 1 || SSL_CTX_use_PrivateKey(ctx, ck.k) != 1) { out.err = "peer-cert-load:" + sslErr(); SSL_CTX_free(ctx); ::close(c); return; }
@@ -1079,6 +1084,14 @@ static std::string opt(const std::string &k, const std::string &dflt = "")
   return it == g_opt.end() ? dflt : it->second;
 }
 
+/// TlsConfig.ciphers of a cell: unset | a string that only lowers the security level | a string that (also) enables anonymous suites
+static std::string cipherString(const std::string &o)
+{
+  if (o == "noanon0") return "ALL:!aNULL:@SECLEVEL=0";
+  if (o == "seclevel0") return "ALL:@SECLEVEL=0";         // OpenSSL's ALL includes aNULL (ADH / AECDH)
+  return "";
+}
+
 static void applyEngineOpts(TransportConfig &cfg, const std::string &et, const std::string &batch)
 {
   cfg.useEdgeTriggered = (et != "0");
@@ -1141,7 +1154,7 @@ static CellResult runClientCell(const std::vector<std::string> &t)
   cfg.clientTls.caFile = trustFile(trust);
   if (trust == "path") cfg.clientTls.caPath = g_dir + "/emptydir";
   cfg.clientTls.minVersion = (int)minv;
-  if (opt("ciphers") == "seclevel0") cfg.clientTls.ciphers = "ALL:@SECLEVEL=0";
+  cfg.clientTls.ciphers = cipherString(opt("ciphers"));
   auto obs = std::make_shared<Obs>();
   auto tr = Transport::tcp(cfg);
   std::string app = std::string("APP:") + MARK + "\n", early = std::string("EARLY:") + MARK + "\n";
@@ -1218,7 +1231,7 @@ static CellResult runClientCell(const std::vector<std::string> &t)
     std::unique_lock<std::mutex> lk(obs->mx);
     obs->cv.wait_for(lk, milliseconds(5000), [&] { return obs->closed || obs->data.find("PONG") != std::string::npos; });
     // after a close, leave a little room for late (wrong) announcements; after success nothing more is expected
-    if (obs->closed && !obs->connectFired) obs->cv.wait_for(lk, milliseconds(30), [&] { return obs->connectFired; });
+    if (obs->closed && !obs->connectFired) obs->cv.wait_for(lk, milliseconds(W(30)), [&] { return obs->connectFired; });
   }
   tr->stop();
   sp.finish();
@@ -1262,7 +1275,7 @@ static CellResult runServerCell(const std::vector<std::string> &t)
   cfg.serverTls.caFile = trustFile(trust);
   if (trust == "path") cfg.serverTls.caPath = g_dir + "/emptydir";
   cfg.serverTls.minVersion = (int)minv;
-  if (opt("ciphers") == "seclevel0") cfg.serverTls.ciphers = "ALL:@SECLEVEL=0";
+  cfg.serverTls.ciphers = cipherString(opt("ciphers"));
   const bool greet = opt("greet") == "1";
   std::string greeting = std::string("GREET:") + MARK + "\n";
   if (own == "unreadable") { cfg.serverTls.certFile = g_dir + "/nope.pem"; cfg.serverTls.keyFile = g_dir + "/nope.key"; }
@@ -1332,7 +1345,7 @@ static CellResult runServerCell(const std::vector<std::string> &t)
       clientPeer(relay.port, peerKind(peer), ccert, ceil, false, po);
       std::unique_lock<std::mutex> lk(obs->mx);
       // the peer is done; let iora finish what it is doing with this connection
-      obs->cv.wait_for(lk, milliseconds(po.gotPong ? 50 : 700), [&] { return obs->closed; });
+      obs->cv.wait_for(lk, milliseconds(W(po.gotPong ? 50 : 700)), [&] { return obs->closed; });
     }
   }
   tr->stop();
@@ -1473,7 +1486,7 @@ static CellResult runHttpServerCell(const std::vector<std::string> &t)
     {
       relay.start(port);
       clientPeer(relay.port, peerKind(peer), ccert, ceil, true, po);
-      std::this_thread::sleep_for(milliseconds(po.gotPong ? 20 : 300));
+      std::this_thread::sleep_for(milliseconds(W(po.gotPong ? 20 : 300)));
       srv.stop();
     }
   }
@@ -1616,6 +1629,7 @@ struct MultiPeer
   std::mutex mx;
   std::vector<std::thread> workers;
   struct Conn { bool tls = false; std::string clear; std::vector<std::string> paths; };
+  std::string cert = "valid";
   std::vector<std::shared_ptr<Conn>> conns;
 
   void start()
@@ -1652,8 +1666,8 @@ struct MultiPeer
     if (pk == 22)
     {
       ctx = peerCtx(true, TLS1_3_VERSION);
-      SSL_CTX_use_certificate(ctx, g_ck["valid"].x);
-      SSL_CTX_use_PrivateKey(ctx, g_ck["valid"].k);
+      SSL_CTX_use_certificate(ctx, g_ck[cert].x);
+      SSL_CTX_use_PrivateKey(ctx, g_ck[cert].k);
       ssl = SSL_new(ctx);
       SSL_set_fd(ssl, c);
       if (SSL_accept(ssl) != 1) { SSL_free(ssl); SSL_CTX_free(ctx); ::close(c); return; }
@@ -1748,6 +1762,52 @@ static std::string runReuseCell(const std::vector<std::string> &t)
   return "r1=" + r1 + " r2=" + r2 + " conns=" + std::to_string(n) + " second_on=" + secondOn + " secure_in_clear=" + bit(leak) + " | why=" + why;
 }
 
+// ---- HttpClient reconfiguration: hreconf <v1> <trigger> <v2>
+//      setTlsConfig{verifyPeer=v1}; trigger (a first https request, or a DNS accessor) initialises the client;
+//      setTlsConfig{verifyPeer=v2, caFile=right CA}; then an https request to a server whose certificate is SELF-SIGNED.
+static std::string runReconfCell(const std::vector<std::string> &t)
+{
+  bool v1 = t[1] == "1", v2 = t[3] == "1";
+  const std::string &trigger = t[2];
+  setSystemStore("empty");
+  resetSslLog();
+  MultiPeer mp;
+  mp.cert = "self";
+  mp.start();
+  std::string r1 = "-", r2 = "err", set2 = "ok", why;
+  {
+    HttpClient::Config hc;
+    hc.connectTimeout = milliseconds(2000);
+    hc.requestTimeout = milliseconds(2500);
+    hc.reuseConnections = false;
+    HttpClient cl(hc);
+    auto mk = [&](bool v)
+    {
+      HttpClient::TlsConfig tc;
+      tc.verifyPeer = v;
+      tc.caFile = v ? trustFile("right") : "";
+      return tc;
+    };
+    std::string base = "https://127.0.0.1:" + std::to_string(mp.port);
+    auto go = [&](const char *path, std::string &res)
+    {
+      try { res = std::to_string(cl.get(base + path + "?m=" + MARK).statusCode); }
+      catch (const std::exception &e) { res = "err"; why += std::string(e.what()).substr(0, 70) + ";"; }
+    };
+    cl.setTlsConfig(mk(v1));
+    if (trigger == "get") go("/c07a", r1);
+    else if (trigger == "dns") (void)cl.getDnsServers();
+    try { cl.setTlsConfig(mk(v2)); }
+    catch (const std::exception &e) { set2 = "throw"; why += std::string(e.what()).substr(0, 70) + ";"; }
+    go("/c07b", r2);
+  }
+  mp.finish();
+  auto v = sslSnapshot();
+  std::string used = v.empty() ? "-" : verifyStr(v.back().first.verify);
+  for (char &ch : why) if (ch == ' ' || ch == '\n') ch = '_';
+  return "set2=" + set2 + " r1=" + r1 + " r2=" + r2 + " verify2=" + used + " | why=" + why;
+}
+
 // ======================================================================================= main loop
 int main(int argc, char **argv)
 {
@@ -1757,6 +1817,7 @@ int main(int argc, char **argv)
   ::dup2(2, 1);
   FILE *ans = ::fdopen(ansFd, "w");
   iora::core::Logger::setLevel(iora::core::Logger::Level::Fatal);
+  if (const char *sl = std::getenv("C07_SLOW")) g_slow = std::max(1, std::atoi(sl));
   const char *wd = std::getenv("C07_WORK");
   char tmpl[] = "/tmp/c07_certs_XXXXXX";
   g_dir = wd ? std::string(wd) : std::string(::mkdtemp(tmpl));
@@ -1791,6 +1852,7 @@ int main(int argc, char **argv)
       else if (t[0] == "hsrv" && t.size() == 7) out = runHttpServerCell(t).line();
       else if (t[0] == "hurl" && t.size() == 5) out = runUrlCell(t).line();
       else if (t[0] == "hreuse" && t.size() == 4) out = runReuseCell(t);
+      else if (t[0] == "hreconf" && t.size() == 4) out = runReconfCell(t);
       else if (t[0] == "fires" && t.size() == 1)
       {
         std::lock_guard<std::mutex> g(g_imx);
